@@ -961,6 +961,16 @@ class BoolVec:
         return NotImplemented
 
 
+class PolyFlags(dict):
+    """ndarray.flags: flags["C_CONTIGUOUS"] and flags.c_contiguous"""
+
+    def sx_getattr(self, ex, attr, node):
+        key = attr.upper()
+        if key in self:
+            return self[key]
+        raise U(f"flags.{attr}", node)
+
+
 # ------------------------------------------------------------------ polynomial arrays
 class Poly:
     def __init__(self, ctx, base, N=None, D=None, row=None, C=None, shape=None, dtype=None, names=None,
@@ -1075,7 +1085,10 @@ class Poly:
         if attr == "flags":
             if not hasattr(self, "f_contiguous"):
                 self.f_contiguous = z3.Bool(ex.ctx.fresh(f"f_contiguous_{self.base}"))
-            return {"OWNDATA": self.owndata, "F_CONTIGUOUS": self.f_contiguous}
+            if not hasattr(self, "c_contiguous"):
+                # an array handed in may be any view (transposed, strided); arrays made by ndpoly(...) are C-contiguous (set there)
+                self.c_contiguous = z3.Bool(ex.ctx.fresh(f"c_contiguous_{self.base}"))
+            return PolyFlags({"OWNDATA": self.owndata, "F_CONTIGUOUS": self.f_contiguous, "C_CONTIGUOUS": self.c_contiguous})
         return V.BoundMethod(self, attr)
 
     def sx_len(self, ex):
